@@ -912,6 +912,36 @@ func genScenario(r *rand.Rand, prop string) *Scenario {
 		}
 		s.Txs = append(s.Txs, t)
 	}
+	if len(s.Txs) >= 2 && r.Intn(3) == 0 {
+		// hot-key relay: consecutive transactions of the block each get one more action that owns the same key and
+		// applies the next step of delete / write-empty / delete / write / read ..., so that a transaction meets a key
+		// that an EARLIER transaction of the block deleted, re-created, or set to the empty value (which must stay
+		// distinguishable from "absent")
+		k := pick(r, dataKeys)
+		small := func() []byte { return []byte{byte(1 + r.Intn(3))} }
+		rot := [][]Op{
+			{{Kind: OpDel, Key: k, Val: []byte{}}},
+			{{Kind: OpPut, Key: k, Val: []byte{}}},
+			{{Kind: OpDel, Key: k, Val: []byte{}}},
+			{{Kind: OpPut, Key: k, Val: small()}},
+			{{Kind: OpGet, Key: k, Val: []byte{}}},
+			{{Kind: OpPut, Key: k, Val: []byte{}}},
+			{{Kind: OpPut, Key: k, Val: small()}},
+			{{Kind: OpPut, Key: k, Val: []byte{}}},
+			{{Kind: OpDel, Key: k, Val: []byte{}}},
+		}
+		start := r.Intn(len(rot))
+		for i := range s.Txs {
+			a := &ScriptAction{Compute: 1, Start: -1, End: -1, KeysB: [][]byte{k}, Perms: []state.Permissions{state.All}}
+			a.Ops = append(a.Ops, rot[(start+i)%len(rot)]...)
+			a.Ops = append(a.Ops, Op{Kind: OpGet, Key: k, Val: []byte{}})
+			if len(s.Txs[i].Actions) < int(s.Rules.MaxActions) {
+				s.Txs[i].Actions = append(s.Txs[i].Actions, a)
+			} else if n := len(s.Txs[i].Actions); n > 0 && n <= int(s.Rules.MaxActions) {
+				s.Txs[i].Actions[n-1] = a
+			}
+		}
+	}
 	if prop == "C24" && r.Intn(3) == 0 {
 		// fault injection: one key of the universe (metadata, data or balance) cannot be read from the parent
 		cands := append(append([][]byte{}, metaKeys()...), universeKeys()...)
